@@ -134,6 +134,19 @@ def parse_workload(ops, rng, n, with_canparse=True):
         ops.href_from_file(fp)
     for i in range(max(1, n // 20)):
         ops.href_from_file(mutate_byte(rng, rng.choice(FILE_PATHS)) + rng.choice(['', '/', 'x', '/..', '?q', '#f']))
+    if n >= 200:
+        # the opaque-path lattice: every body x what follows it (the space-before-delimiter rule looks at BOTH delimiters)
+        k = 0
+        for body in OPAQUES:
+            for tail in ['', '?q', '#f', '?q#f', ' ', ' ?q', ' #f', '  #f', ' ?q #f', ' ? #', ' #?', '\t #f']:
+                if k % 10 == 0:
+                    ops.reset()
+                k += 1
+                ops.parse(2, 0, rng.choice(['a:', 'data:', 'mailto:']) + body + tail)
+                ops.reparse(2)
+                if k % 3 == 0:
+                    ops.set(2, rng.choice(['search', 'hash']), rng.choice(['k=v', '', 'x y']))
+                    ops.reparse(2)
     for i in range(n):
         r = rng.random()
         base = rng.choice(BASES)
